@@ -28,7 +28,10 @@ import (
 //           silent; no sender is blocked
 // ---------------------------------------------------------------------------
 
-var c02backends = []string{"answers", "answers-1-then-closes", "resets-after-first-read", "closes-at-once", "silent"}
+var c02backends = []string{"answers", "answers-1-then-closes", "resets-after-first-read", "closes-at-once", "silent",
+	// the backend does not read (socket buffers of 32 bytes fill up, the client's writer blocks in its write), then
+	// only the read side of the proxy's connection ends: the backend half-closes, or sends something undecodable
+	"never-reads-then-half-closes", "never-reads-then-garbage"}
 
 func c02backend(b *vnet.VConn, mode string) {
 	var buf []byte
@@ -80,6 +83,10 @@ func reqDone(r *simpleRequest) bool {
 func c02clientBody() {
 	mode := c02backends[sched.Choose(sched.ClsInput, len(c02backends), "backend")]
 	withStop := sched.Choose(sched.ClsInput, 2, "stop") == 1
+	neverReads := strings.HasPrefix(mode, "never-reads")
+	if neverReads {
+		vnet.SetWindow(32)
+	}
 	a, b := vnet.Pipe()
 	a.Label, b.Label = "proxy-backend-conn", "backend"
 	c, err := newClient(a, vfConfig(0, nil), log.New("[verif]"))
@@ -87,7 +94,9 @@ func c02clientBody() {
 		sched.Fail("harness-newclient", err.Error())
 	}
 	sched.GoNamed("client.Start", c.Start)
-	sched.GoServer("backend", func() { c02backend(b, mode) })
+	if !neverReads {
+		sched.GoServer("backend", func() { c02backend(b, mode) })
+	}
 	reqs := []*simpleRequest{
 		newSimpleRequest(newStringArray("get", "a")),
 		newSimpleRequest(newStringArray("get", "b")),
@@ -99,6 +108,14 @@ func c02clientBody() {
 		sched.GoNamed("stopper", c.Stop)
 	}
 	sched.WaitQuiescent()
+	if neverReads {
+		if mode == "never-reads-then-half-closes" {
+			b.CloseWrite()
+		} else {
+			b.Write([]byte("?what\r\n"))
+		}
+		sched.WaitQuiescent()
+	}
 	c02verdict(mode, withStop, c, a, reqs)
 }
 
@@ -540,5 +557,96 @@ func init() {
 			b = sched.Bounds{P: 1, F: 2, Sel: 1, Env: 1}
 		}
 		return sched.Config{Bounds: b, Iterative: true, MaxSteps: 100000}, c02bannedFaultsBody
+	}})
+}
+
+// ---------------------------------------------------------------------------
+// C02 (S) a request is redirected (MOVED or ASK) to a target that cannot serve it right now.
+//
+// alphabet  redirection kind MOVED | ASK x target: reachable | refuses connects (once, or for good) | resets the
+//           connection right after accepting it | its connection is lost while the proxy still lists the client x
+//           one or two concurrent requests (a single-key one and a multi-key one with a key on the target)
+// bound     all schedules P1 F1 Sel1 (quick) / P2 F2 Sel1 (thorough)
+// oracle    every request is completed exactly once (a second completion panics: close of closed channel), no
+//           caller is parked for ever
+// ---------------------------------------------------------------------------
+
+func c02redirectTargetBody() {
+	kind := []string{"moved", "ask"}[sched.Choose(sched.ClsInput, 2, "redirection")]
+	target := []string{"reachable", "refuses-once", "refuses", "resets-after-accept", "connection-lost"}[sched.Choose(sched.ClsInput, 5, "target")]
+	two := sched.Choose(sched.ClsInput, 2, "requests") == 1
+	cl := cluster.New(2, 0, 2)
+	s := vfStartStack(cl, vfSvcConfig(0, nil, 0))
+	m0, m1 := cl.Masters()[0], cl.Masters()[1]
+	k0, k1 := cl.KeyInGroup("k", 0, 0), cl.KeyInGroup("k", 1, 0)
+	if kind == "moved" {
+		cl.MoveGroup(0, m1)
+	} else {
+		cl.SetMigrating(0, m1) // k0 does not exist at the source: ASK
+	}
+	refusals := 0
+	switch target {
+	case "refuses-once", "refuses":
+		m1.CloseConns()
+		sched.WaitQuiescent()
+		vnet.SetDialHook(func(addr string) error {
+			if addr == m1.Addr && (target == "refuses" || refusals == 0) {
+				refusals++
+				return vnet.ErrRefused
+			}
+			return nil
+		})
+	case "resets-after-accept":
+		m1.CloseConns()
+		sched.WaitQuiescent()
+		m1.ResetNextConn = true
+	case "connection-lost":
+		// the target's connection goes away while the request is on its way to the source
+	}
+	var raws []*rawRequest
+	mk := func(args ...string) *rawRequest {
+		r := newRawRequest(newStringArray(args...))
+		raws = append(raws, r)
+		return r
+	}
+	r1 := mk("get", k0)
+	sched.GoNamed("request1", func() { s.p.handleRequest(r1) })
+	if two {
+		r2 := mk("mget", k1, k0)
+		sched.GoNamed("request2", func() { s.p.handleRequest(r2) })
+	}
+	if target == "connection-lost" {
+		sched.GoNamed("event", func() { m1.ResetConns() })
+	}
+	sched.WaitQuiescent()
+	_ = m0
+	out := fmt.Sprintf("%s target=%s two=%v:", kind, target, two)
+	for _, b := range sched.LiveNonServer() {
+		if strings.HasPrefix(b.Name, "request") {
+			sched.Fail(fmt.Sprintf("caller-blocked-forever / redirected to a target that %s", target), fmt.Sprintf("%s: %s is parked in %s", out, b.Name, b.Kind))
+		}
+	}
+	for i, r := range raws {
+		select {
+		case <-r.done:
+			t := string(r.Response().Text)
+			if r.Response().Type != Error {
+				t = "ok"
+			}
+			out += fmt.Sprintf(" r%d=%s", i, strings.SplitN(t, ":", 2)[0])
+		default:
+			sched.Fail("request-never-completed / redirected to a target that "+target, fmt.Sprintf("%s: request %d (%s) has no reply at quiescence", out, i, r.Body()))
+		}
+	}
+	sched.SetOutcome(out)
+}
+
+func init() {
+	sched.Register(&sched.Scenario{Name: "C02/redirect-target", Setup: func(tier string) (sched.Config, func()) {
+		b := sched.Bounds{P: 1, F: 1, Sel: 1}
+		if tier == "thorough" {
+			b = sched.Bounds{P: 2, F: 2, Sel: 1}
+		}
+		return sched.Config{Bounds: b, Iterative: true, MaxSteps: 100000}, c02redirectTargetBody
 	}})
 }
